@@ -38,8 +38,11 @@ pub fn judge(case: &FaultCase, run: &FaultRun) -> Outcome {
 		return Outcome::fail("C07:daemon-died", format!("the daemon is gone after the attempts ({:?}); {d}\n{}", run.state_before_kill, run.stderr_tail));
 	}
 	// exactly one post-operation per attempt: attempts start with the directory request
-	let posts: Vec<u64> = run.records.iter().filter(|r| bb::is_post(r)).map(|r| r.t_start).collect();
-	let dirs: Vec<u64> = run.snap.log.iter().filter(|l| l.pos == Pos::Dir).map(|l| l.t_ns).collect();
+	// only the attempts the case asked for are judged: after the last of them the daemon is let go for a short grace period and
+	// stopped at an arbitrary point, where records and CA log need not be in step
+	let posts: Vec<u64> = run.records.iter().filter(|r| bb::is_post(r)).map(|r| r.t_start).take(case.attempts).collect();
+	let t_last = posts.last().cloned().unwrap_or(u64::MAX);
+	let dirs: Vec<u64> = run.snap.log.iter().filter(|l| l.pos == Pos::Dir && l.t_ns <= t_last).map(|l| l.t_ns).collect();
 	for w in posts.windows(2) {
 		if !dirs.iter().any(|t| *t > w[0] && *t < w[1]) {
 			return Outcome::fail("C07:post-operation-duplicate", format!("two post-operation runs without a new attempt between them; {d}"));
@@ -48,7 +51,13 @@ pub fn judge(case: &FaultCase, run: &FaultRun) -> Outcome {
 	for w in dirs.windows(2) {
 		let n = posts.iter().filter(|t| **t > w[0] && **t < w[1]).count();
 		if n != 1 {
-			return Outcome::fail(if n == 0 { "C07:post-operation-missing" } else { "C07:post-operation-duplicate" }, format!("{n} post-operation runs for one attempt; {d}\n{}", run.stderr_tail));
+			// the sequence the judgement rests on: requests at the CA and post-operation records, in time order
+			let mut seq: Vec<(u64, String)> = run.snap.log.iter().map(|l| (l.t_ns, format!("{}:{}", l.pos.name(), l.status))).collect();
+			seq.extend(run.records.iter().map(|r| (r.t_start, format!("<{}>", r.hook_id))));
+			seq.sort();
+			let t0 = seq.first().map(|x| x.0).unwrap_or(0);
+			let seq: Vec<String> = seq.iter().map(|(t, s)| format!("{:.1}ms {s}", (*t - t0) as f64 / 1e6)).collect();
+			return Outcome::fail(if n == 0 { "C07:post-operation-missing" } else { "C07:post-operation-duplicate" }, format!("{n} post-operation runs for one attempt; {d}\nsequence: {seq:?}\n{}", run.stderr_tail));
 		}
 	}
 	// a hook listed for storage events AND post-operation runs as post-operation hook like any other: once per attempt
